@@ -79,6 +79,8 @@ pub struct Rec {
     pub opt: OptAfter,
     /// stamp at which the op registered in the wait list (push_send / push_recv probe)
     pub reg: Option<u64>,
+    /// stamp of the op's LAST registration (an implementation may re-queue a waiter, e.g. when its waker changes)
+    pub reg_last: Option<u64>,
     pub polls: u16,
     /// kanal probes hit by this task during the op
     pub probes: Vec<u32>,
@@ -268,6 +270,7 @@ impl<P: Payload> TaskCtx<P> {
             res: Res::Incomplete,
             opt: OptAfter::NotOption,
             reg: None,
+            reg_last: None,
             polls: 0,
             probes: Vec::new(),
             repoll: None,
@@ -297,8 +300,11 @@ impl<P: Payload> TaskCtx<P> {
         rec.steps = (rt::steps() as u32).wrapping_sub(rec.steps);
         rec.own = (rt::exec::own_steps() as u32).wrapping_sub(rec.own);
         for (id, st) in pl {
-            if (id == rt::probe::PUSH_SEND || id == rt::probe::PUSH_RECV) && rec.reg.is_none() {
-                rec.reg = Some(st);
+            if id == rt::probe::PUSH_SEND || id == rt::probe::PUSH_RECV {
+                if rec.reg.is_none() {
+                    rec.reg = Some(st);
+                }
+                rec.reg_last = Some(rec.reg_last.map_or(st, |x| x.max(st)));
             }
             if !rec.probes.contains(&id) {
                 rec.probes.push(id);
